@@ -182,7 +182,8 @@ class Extractor(ast.NodeTransformer):
                         and x.id != 'self' and x.id not in used:
                     used.append(x.id)
         # unique per class: a subclass must not override the base's helper
-        name = '_x_%s_%s_part' % (cls_name.lower(), fn.name.strip('_'))
+        name = '_x_%s%s_%s_part' % (getattr(self, 'tag', ''), cls_name.lower(),
+                                    fn.name.strip('_'))
         helper = ast.FunctionDef(
             name=name,
             args=ast.arguments(posonlyargs=[], args=[ast.arg('self')] + [
@@ -200,10 +201,12 @@ MODES = {'rename': LocalRenamer, 'ifswap': IfSwapper, 'nest': AndNester,
          'earlyret': EarlyReturner, 'extract': Extractor}
 
 
-def transform(src, mode):
+def transform(src, mode, tag=''):
     tree = ast.parse(src)
     if mode in MODES:
-        tree = MODES[mode]().visit(tree)
+        tr = MODES[mode]()
+        tr.tag = tag            # two classes of one name in different modules
+        tree = tr.visit(tree)
         ast.fix_missing_locations(tree)
     return ast.unparse(tree) + '\n'
 
@@ -220,7 +223,7 @@ def main():
                 if fn.endswith('.py'):
                     p = os.path.join(dirpath, fn)
                     src = open(p, encoding='utf-8').read()
-                    out = transform(src, mode)
+                    out = transform(src, mode, tag=fn[:-3].replace('_', '') + '_')
                     compile(out, p, 'exec')
                     open(p, 'w', encoding='utf-8').write(out)
                     n += 1
